@@ -17,9 +17,9 @@ LEVEL = "exploration"
 
 PLAN = {
     "quick": {"hashseeds": 12, "shards": 4, "generated": 240, "skip": ["1gid.cif.gz"], "cli_all_variants": False,
-              "timeout": 600, "light_hashseeds": 16, "light_max_cost": 150_000, "adapter_generated": 36, "derived_rounds": 1, "unifier_generated": 8},
+              "timeout": 600, "light_hashseeds": 16, "light_max_cost": 150_000, "adapter_generated": 36, "derived_rounds": 1, "unifier_generated": 8, "pairfuzz": 10},
     "thorough": {"hashseeds": 48, "shards": 4, "generated": 4000, "skip": [], "cli_all_variants": True,
-                 "timeout": 5400, "light_hashseeds": 80, "light_max_cost": 150_000, "adapter_generated": 600, "derived_rounds": 8, "unifier_generated": 120},
+                 "timeout": 5400, "light_hashseeds": 80, "light_max_cost": 150_000, "adapter_generated": 600, "derived_rounds": 8, "unifier_generated": 120, "pairfuzz": 120},
 }
 
 ASSUMPTIONS = [
@@ -62,6 +62,7 @@ def corpus_items(tier):
             items.append({"id": "corpus/%s/gaps%d" % (name, int(gaps)), "type": "file", "path": path,
                           "find_gaps": gaps, "v2": not gaps, "v2_repeat": small or thorough,
                           "cli": (not gaps) or thorough, "cli_repeat": small or thorough,
+                          "rerun": (not gaps) and os.path.getsize(path) < 60_000,
                           "lib": (not gaps) and (os.path.getsize(path) < 90_000 or thorough),
                           "lib_repeat": os.path.getsize(path) < 40_000 or thorough,
                           "cli_variants": ["-a", "-e", ""] if thorough else ["-a"],
@@ -92,7 +93,7 @@ def tool_items(tier):
     items = []
     for name, module, argv, needs in specs:
         if all(os.path.exists(f(n)) for n in needs):
-            items.append({"id": "tool/" + name, "type": "tool", "module": module, "argv": argv, "cost": 400000})
+            items.append({"id": "tool/" + name, "type": "tool", "module": module, "argv": argv, "rerun": True, "cost": 400000})
     return items
 
 
@@ -113,12 +114,12 @@ def adapter_generated_items(tier, seed):
         s = rng.stream(NAME, tier, seed, i, "adapter")
         out.append({"id": "adaptergen/%d" % i, "type": "adapter_gen", "path": os.path.join(TESTS, s.choice(files)),
                     "gen_seed": s.getrandbits(48), "find_gaps": s.random() < 0.25,
-                    "flag": s.choice(["-a", "-e", "-e", "", ""]), "cost": 60000})
+                    "flag": s.choice(["-a", "-e", "-e", "", ""]), "rerun": i % 4 == 0, "cost": 60000})
     return out
 
 
 DERIVED_SOURCES = ["1ATO.pdb", "488d.pdb", "q-ugg-5k-salt_400-500ns_frame1065.pdb"]
-DERIVED_VARIANTS = ["altloc", "dupatoms", "icode", "models", "twinchain"]
+DERIVED_VARIANTS = ["altloc", "dupatoms", "icode", "models", "twinchain", "protonated", "jitter"]
 
 
 def derived_items(tier, seed):
@@ -147,6 +148,18 @@ def derived_items(tier, seed):
                             "variant": variant, "gen_seed": gs, "find_gaps": False, "as_cif": False,
                             "v2": False, "v2_repeat": False, "cli": False, "lib": False, "lib_repeat": False, "cost": 400000})
                 k += 1
+    return out
+
+
+def pairfuzz_items(tier, seed):
+    """Coordinate-level fuzzing of the 3D annotation on two-residue fragments (see c14_child.pairfuzz_item)."""
+    out = []
+    for i in range(PLAN[tier]["pairfuzz"]):
+        s = rng.stream(NAME, tier, seed, i, "pairfuzz")
+        src = os.path.join(TESTS, s.choice(["1ATO.pdb", "488d.pdb", "q-ugg-5k-salt_400-500ns_frame1065.pdb"]))
+        if os.path.exists(src):
+            out.append({"id": "pairfuzz/%d" % i, "type": "pairfuzz", "source": src, "gen_seed": s.getrandbits(48),
+                        "trials": 50, "cost": 30000})
     return out
 
 
@@ -312,7 +325,11 @@ def find_violations(cells):
         for (hs, rep), h in m.items():
             by_seed.setdefault(hs, {})[rep] = h
         in_process = sorted(hs for hs, reps in by_seed.items() if len(set(reps.values())) > 1)
+        rerun_only = in_process and all(len({h for r, h in reps.items() if r != 2}) <= 1 for reps in by_seed.values()) \
+            and len({h for reps in by_seed.values() for r, h in reps.items() if r != 2}) <= 1
         clause = "identical-on-repeated-calls-in-one-process" if in_process else "identical-across-hash-seeds"
+        if rerun_only:
+            clause = "identical-when-run-again-into-the-same-directory"
         out.append({"item": item, "kind": kind, "clause": clause,
                     "digests": {"%s/%d" % k: v[:16] for k, v in sorted(m.items())},
                     "signature": [clause, kind.split("@")[0]]})
@@ -393,7 +410,7 @@ def check(tier, seed, workers):
     tmp = os.path.join(runner.base_tmp(), "c14")
     seeds = hashseeds(tier, seed)
     items = (corpus_items(tier) + tool_items(tier) + generated_items(tier, seed) + adapter_generated_items(tier, seed)
-             + derived_items(tier, seed) + unifier_generated_items(tier, seed))
+             + derived_items(tier, seed) + unifier_generated_items(tier, seed) + pairfuzz_items(tier, seed))
     timeout = float(os.environ.get("VERIF_BUDGET_S") or 0) * 4 or plan["timeout"]
     context = {}
     cells, nontrivial, rows_total, failures = explore(items, seeds, plan["shards"], workers, timeout, tmp,
